@@ -221,4 +221,184 @@ def toPathPts (f : Int) : Int → Int → List (G × List (Int × Int)) → List
 
 def scalePts (k : Int) (ps : List (Int × Int)) : List (Int × Int) := ps.map (fun p => (k * p.1, k * p.2))
 
+/-! ## (g) content-stream strings: glyph codes as escaped literal strings (`write` closure of `WriteText`)
+
+L2: `escByte`/`escCodes` model the byte loop of /repo/renderers/pdf/writer.go (`subset != nil` branch):
+every subset code is written big-endian as two bytes, with `\n \r \t \b \f \\ \( \)` escaped.
+L3: `readLit` is a reader for PDF literal strings per PDF 32000-1 §7.3.4.2 (escapes, octal `\ddd`,
+balanced parentheses, line continuation, end-of-line normalisation), one byte per step. -/
+
+def escByte (b : Nat) : List Nat :=
+  if b = 10 then [92, 110] else if b = 13 then [92, 114] else if b = 9 then [92, 116]
+  else if b = 8 then [92, 98] else if b = 12 then [92, 102]
+  else if b = 92 ∨ b = 40 ∨ b = 41 then [92, b] else [b]
+
+/-- the two bytes of a code, as `uint8((glyphID & 0xff00) >> 8), uint8(glyphID & 0x00ff)` -/
+def codeBytes (c : Nat) : List Nat := [c / 256 % 256, c % 256]
+
+def escCodes : List Nat → List Nat
+  | [] => []
+  | c :: cs => escByte (c / 256 % 256) ++ escByte (c % 256) ++ escCodes cs
+
+def allCodeBytes : List Nat → List Nat
+  | [] => []
+  | c :: cs => codeBytes c ++ allCodeBytes cs
+
+inductive LMode where
+  | normal
+  | esc                 -- after a backslash
+  | oct (v n : Nat)     -- inside `\ddd`, n digits read
+  | cr                  -- after an unescaped CR (a following LF belongs to the same end-of-line)
+  | escCr               -- after backslash CR (line continuation, a following LF is skipped too)
+deriving Repr, DecidableEq
+
+structure LSt where
+  mode : LMode
+  depth : Nat
+  acc : List Nat
+deriving Repr
+
+/-- one byte in `normal` mode -/
+def litNormal (depth : Nat) (acc : List Nat) (b : Nat) : LSt ⊕ List Nat :=
+  if b = 92 then .inl ⟨.esc, depth, acc⟩
+  else if b = 40 then .inl ⟨.normal, depth + 1, acc ++ [40]⟩
+  else if b = 41 then (if depth = 0 then .inr acc else .inl ⟨.normal, depth - 1, acc ++ [41]⟩)
+  else if b = 13 then .inl ⟨.cr, depth, acc ++ [10]⟩
+  else .inl ⟨.normal, depth, acc ++ [b]⟩
+
+/-- L3 §7.3.4.2, one byte per step; `.inr s` = the closing parenthesis was read, `s` is the string -/
+def litStep (st : LSt) (b : Nat) : LSt ⊕ List Nat :=
+  match st.mode with
+  | .normal => litNormal st.depth st.acc b
+  | .cr => if b = 10 then .inl ⟨.normal, st.depth, st.acc⟩ else litNormal st.depth st.acc b
+  | .escCr => if b = 10 then .inl ⟨.normal, st.depth, st.acc⟩ else litNormal st.depth st.acc b
+  | .esc =>
+    if b = 110 then .inl ⟨.normal, st.depth, st.acc ++ [10]⟩
+    else if b = 114 then .inl ⟨.normal, st.depth, st.acc ++ [13]⟩
+    else if b = 116 then .inl ⟨.normal, st.depth, st.acc ++ [9]⟩
+    else if b = 98 then .inl ⟨.normal, st.depth, st.acc ++ [8]⟩
+    else if b = 102 then .inl ⟨.normal, st.depth, st.acc ++ [12]⟩
+    else if b = 40 ∨ b = 41 ∨ b = 92 then .inl ⟨.normal, st.depth, st.acc ++ [b]⟩
+    else if 48 ≤ b ∧ b ≤ 55 then .inl ⟨.oct (b - 48) 1, st.depth, st.acc⟩
+    else if b = 10 then .inl ⟨.normal, st.depth, st.acc⟩
+    else if b = 13 then .inl ⟨.escCr, st.depth, st.acc⟩
+    else .inl ⟨.normal, st.depth, st.acc ++ [b]⟩      -- "the REVERSE SOLIDUS shall be ignored"
+  | .oct v n =>
+    if 48 ≤ b ∧ b ≤ 55 ∧ n < 3 then
+      (if n + 1 = 3 then .inl ⟨.normal, st.depth, st.acc ++ [(v * 8 + (b - 48)) % 256]⟩
+       else .inl ⟨.oct (v * 8 + (b - 48)) (n + 1), st.depth, st.acc⟩)
+    else litNormal st.depth (st.acc ++ [v % 256]) b
+
+/-- read a literal string body (the opening parenthesis already consumed); returns (string, rest) -/
+def readLit : LSt → List Nat → Option (List Nat × List Nat)
+  | _, [] => none
+  | st, b :: rest =>
+    match litStep st b with
+    | .inl st' => readLit st' rest
+    | .inr s => some (s, rest)
+
+def LSt.start : LSt := ⟨.normal, 0, []⟩
+
+/-- L3: Identity-H / Identity-V are two-byte CMaps: the shown string is a sequence of big-endian codes -/
+def codesOfBytes : List Nat → Option (List Nat)
+  | [] => some []
+  | [_] => none
+  | hi :: lo :: rest => (codesOfBytes rest).map (fun cs => (hi * 256 + lo) :: cs)
+
+/-- what a TJ array must say about a glyph laid out with advance difference `dx`: its code and the
+adjustment following it -/
+def tjSpec (upm : Int) (g : Nat × Int) : Nat × Int := (g.1, if g.2 = 0 then 0 else tjAdjust upm g.2)
+
+/-! ## (h) the TJ array of `WriteText` (glyph branch) and its reading per §9.4.3 -/
+
+inductive TJItem where
+  | str (codes : List Nat)
+  | num (n : Int)
+deriving Repr, BEq, DecidableEq
+
+/-- `for j, glyph := range val { if glyph.XAdvance != orig { write(val[i:j+1]); " %d"; i = j+1 } }; write(val[i:])`
+over (code, dx) with `dx = XAdvance − font advance` (resp. the vertical pair); `pending` = `val[i:j]` -/
+def tjGo (upm : Int) : List Nat → List (Nat × Int) → List TJItem
+  | pending, [] => [.str pending]
+  | pending, (c, dx) :: gs =>
+    if dx ≠ 0 then .str (pending ++ [c]) :: .num (tjAdjust upm dx) :: tjGo upm [] gs
+    else tjGo upm (pending ++ [c]) gs
+
+def tjBuild (upm : Int) (gs : List (Nat × Int)) : List TJItem := tjGo upm [] gs
+
+/-- L3 §9.4.3 TJ: each string shows its glyphs in order; a number moves the pen by −n/1000 (it belongs to
+the glyph shown before it). Result: (code, total adjustment after that glyph), plus a leading adjustment. -/
+def tjAttach : List Nat → Int → List (Nat × Int)
+  | [], _ => []
+  | [c], a => [(c, a)]
+  | c :: c' :: cs, a => (c, 0) :: tjAttach (c' :: cs) a
+
+def tjRead : List TJItem → Int × List (Nat × Int)
+  | [] => (0, [])
+  | .str cs :: rest =>
+    let r := tjRead rest
+    if cs = [] then r   -- an empty string shows nothing: numbers after it still follow the previous glyph
+    else (0, tjAttach cs r.1 ++ r.2)
+  | .num n :: rest => let r := tjRead rest; (n + r.1, r.2)
+
+/-- bytes of the array as written: `[`, `(`…`)` chunks separated by one space, ` %d` numbers, `]TJ` -/
+def decDigits (n : Nat) : List Nat := (Nat.toDigits 10 n).map Char.toNat
+def intBytes (n : Int) : List Nat := if n < 0 then 45 :: decDigits n.natAbs else decDigits n.natAbs
+
+def tjBytesGo : Bool → List TJItem → List Nat
+  | _, [] => []
+  | first, .str cs :: rest => (if first then [40] else [32, 40]) ++ escCodes cs ++ [41] ++ tjBytesGo false rest
+  | first, .num n :: rest => 32 :: intBytes n ++ tjBytesGo first rest
+
+def tjBytes (items : List TJItem) : List Nat := 91 :: tjBytesGo true items ++ [93, 84, 74]
+
+/-! ## (i) CIDToGIDMap (written when fonts are not subsetted) and code → glyph selection -/
+
+/-- `cidToGIDMap[2j] = byte((glyphID & 0xFF00) >> 8); cidToGIDMap[2j+1] = byte(glyphID & 0x00FF)` -/
+def encodeCidMap : List Nat → List Nat
+  | [] => []
+  | g :: gs => (g / 256 % 256) :: (g % 256) :: encodeCidMap gs
+
+/-- L3 §9.7.4.2 Table 117: "the glyph index for a particular CID value c shall be a 2-byte value stored in
+bytes 2×c and 2×c+1, where the first byte shall be the high-order byte"; CIDs beyond the stream: undefined -/
+def cidToGid (bytes : List Nat) (cid : Nat) : Option Nat :=
+  match bytes[2 * cid]?, bytes[2 * cid + 1]? with
+  | some hi, some lo => some (hi * 256 + lo)
+  | _, _ => none
+
+/-- which glyph of the SOURCE font a content-stream code shows to a conforming reader: with subsetting the
+embedded program holds the glyphs `IDs` in order (contract of `sfnt.Subset`) and CID = GID; without, the full
+program is embedded and the CIDToGIDMap stream translates — but only for Type 2 (TrueType) CIDFonts
+(Table 117); for a CIDFontType0 with a name-keyed CFF the CID is the glyph index (§9.7.4.2). -/
+def codeGlyph (subset trueType : Bool) (ids : List Nat) (code : Nat) : Option Nat :=
+  if subset then ids[code]?
+  else if trueType then cidToGid (encodeCidMap ids) code
+  else some code
+
+/-- W array of a font: widths are `int(f*advance+0.5)` of the glyphs in code order -/
+def fontW (upm : Int) (advs : List Int) : Int × List WEnt := encodeW (advs.map (wWidth upm))
+
+/-! ## (j) verdict on the font tables of a PDF font object (decided in Lean on the raw observation)
+
+Observation: for every code `0 … n-1` used with the font, the source glyph's advance and (if the glyph
+has a cmap entry) its Unicode scalar value; the font object's DW, W and ToUnicode entries. -/
+
+structure FontObs where
+  upm : Int
+  advs : List Int                 -- advance of the glyph behind code k
+  unis : List (Option Nat)        -- its rune, `none` = not judged (no cmap entry / .notdef)
+  dw : Int
+  w : List WEnt
+  ranges : List (Nat × Nat × Nat)
+  chars : List (Nat × Nat)
+
+def codeOK (o : FontObs) (k : Nat) : Bool :=
+  (lookupW o.dw o.w k == wWidth o.upm (o.advs.getD k 0)) &&
+  (match o.unis.getD k none with
+   | none => true
+   | some u => tuLookup o.ranges o.chars k == some u)
+
+/-- first code whose width or Unicode value a reader would get wrong, if any -/
+def fontVerdict (o : FontObs) : Option Nat := (List.range o.advs.length).find? (fun k => !codeOK o k)
+
 end Canvas.C18
